@@ -120,6 +120,11 @@ def reorder_subs(spec, order):
     return dict(spec, items=items)
 
 
+def reserved_fill(L, P):
+    """Every reserved byte of the peer's PDU (sub-items included) zero, or not: receivers do not test them."""
+    return (0, 0xA5A5, 0, 0x0101)[(L % 11 + P % 3) % 4]
+
+
 def sub_order(L, P):
     return (L % 7 + P % 5 + (L > P)) % 3
 
@@ -157,7 +162,7 @@ def run_acceptor_case(L, P, lengths, via_hook=False, entity='AE'):
         ae.add_scp(service)
 
         def plan(dul):
-            dul.push_pdu(reorder_subs(fd.rq_spec([(1, SOP, [TS])], P), sub_order(L, P)))
+            dul.push_pdu(reorder_subs(fd.rq_spec([(1, SOP, [TS])], P, reserved=reserved_fill(L, P)), sub_order(L, P)))
             for i in range(len(datas)):
                 dul.push_msg({0x0002: SOP, 0x0100: 0x0020, 0x0110: i, 0x0700: 0}, b'\x08\x00\x52\x00\x06\x00\x00\x00STUDY ', 1)
         acc, fac, exc = fd.run_acceptor(ae, [plan])
@@ -203,7 +208,7 @@ def run_requestor_case(L, P, lengths, entity='ClientAE'):
     def responder(dul, rec):
         if rec['kind'] == 'pdu' and rec['spec'].get('t') == 1:
             ids = [it['id'] for it in rec['spec']['items'] if it['t'] == 0x20]
-            return [fd.incoming_pdu(reorder_subs(fd.ac_spec([(i, 0, TS) for i in ids], P), sub_order(L, P)))]
+            return [fd.incoming_pdu(reorder_subs(fd.ac_spec([(i, 0, TS) for i in ids], P, reserved=reserved_fill(L, P)), sub_order(L, P)))]
         if rec['kind'] == 'pdu' and rec['spec'].get('t') == 5:
             return [fd.incoming_pdu({'t': 6, 'r1': 0, 'r2': 0})]
         return []
@@ -338,7 +343,7 @@ def run(ctx):
     warnings.simplefilter('ignore')
     ctx.exhaustive = True
     ctx.rule = ('exhaustive grid: (own configured maximum, peer-announced maximum) over %d x %d boundary values '
-                '(0 = no limit .. 2^32-1) x {acceptor, acceptor whose limit is set per peer in the on_association_request hook, the storage entities StorageAE / ClientStorageAE, requestor} x data lengths {none, 1, f-1, f, f+1, 3f+1} and a data-less message whose command set is longer than one fragment (Offending Element list), the Maximum Length sub-item first / last / in the middle of the user information, around '
+                '(0 = no limit .. 2^32-1) x {acceptor, acceptor whose limit is set per peer in the on_association_request hook, the storage entities StorageAE / ClientStorageAE, requestor} x data lengths {none, 1, f-1, f, f+1, 3f+1} and a data-less message whose command set is longer than one fragment (Offending Element list), the Maximum Length sub-item first / last / in the middle of the user information and the reserved bytes of its PDU zero or not, around '
                 'the fragment size the peer\'s value implies (capped at %d bytes); plus Hypothesis pairs; after real '
                 'negotiation through AssociationAcceptor.handle / request_association every message (data set given as bytes or as a file-like object, alternating) is sent with '
                 'Association.send; non-trivial = the two values differ or one is 0'
